@@ -10,6 +10,7 @@ import (
 	"flag"
 	"fmt"
 	"os"
+	"path/filepath"
 	"sort"
 
 	"qeepverif/internal/beh"
@@ -71,6 +72,7 @@ func main() {
 			fmt.Fprintln(os.Stderr, err)
 			return 2
 		}
+		regressions(c, id)
 		if err := ck.fn(c); err != nil {
 			var b run.Broken
 			if errors.As(err, &b) {
@@ -90,6 +92,35 @@ func envOr(k, d string) string {
 		return v
 	}
 	return d
+}
+
+// regressions replays the committed witnesses of repaired defects and of false alarms of this property
+// (regress/<ID>-*.json): each must pass on a conforming tree; one that fails again is reported like any violation.
+func regressions(c *run.Ctx, id string) {
+	files, _ := filepath.Glob(filepath.Join(run.VerifDir, "regress", id+"-*.json"))
+	n := 0
+	for _, f := range files {
+		b, err := os.ReadFile(f)
+		if err != nil {
+			continue
+		}
+		var rec struct {
+			Witness json.RawMessage `json:"witness"`
+		}
+		if json.Unmarshal(b, &rec) != nil {
+			continue
+		}
+		var w run.SymWitness
+		if err := json.Unmarshal(rec.Witness, &w); err == nil && w.Case != nil {
+			n++
+			if res := run.ReplaySymWitness(&w); res.Verdict == 3 {
+				c.Violate(fmt.Sprintf("regression witness %s fails again: %s", filepath.Base(f), res.Detail), w)
+			}
+		}
+	}
+	if n > 0 {
+		c.AddExtra("regression_witnesses_replayed", n)
+	}
 }
 
 // doReplay re-executes the witness of a violation against the current tree.
